@@ -144,8 +144,8 @@ fn c04_inprocess(ctx: &Ctx) -> Stats {
         let mut engine = Flounder::new();
         let mut since_new = 0;
         let mut prev: Option<String> = None;
-        for _ in 0..(n / ctx.workers as u64 + 1) {
-            if ctx.out_of_time() {
+        for k in 0..(n / ctx.workers as u64 + 1) {
+            if k >= 50 && ctx.past(0.6) {
                 break;
             }
             // several position commands on one engine; a new engine now and then
@@ -213,8 +213,8 @@ fn c04_blackbox(ctx: &Ctx) -> Stats {
         let mut rng = Rng::new(ctx.seed, 4500 + w as u64);
         let mut eng: Option<bb::Engine> = None;
         let mut script: Vec<String> = vec![];
-        for _ in 0..(n / workers as u64 + 1) {
-            if ctx.out_of_time() {
+        for k in 0..(n / workers as u64 + 1) {
+            if k >= 3 && ctx.out_of_time() {
                 break;
             }
             if eng.is_none() || rng.chance(1, 5) {
@@ -529,7 +529,7 @@ fn c09_inprocess(ctx: &Ctx) -> Stats {
         let mut st = Stats::new();
         let mut rng = Rng::new(ctx.seed, 9000 + w as u64);
         for i in 0..(n / ctx.workers as u64 + 1) {
-            if ctx.out_of_time() {
+            if i >= 50 && ctx.past(0.6) {
                 break;
             }
             let g = repeat_game(&mut rng);
@@ -652,7 +652,7 @@ fn c09_blackbox(ctx: &Ctx) -> Stats {
         let mut done = 0;
         let mut tries = 0;
         let target = n / workers as u64 + 1;
-        while done < target && tries < target * 40 && !ctx.out_of_time() {
+        while done < target && tries < target * 40 && (done < 3 || !ctx.out_of_time()) {
             tries += 1;
             let g = repeat_game(&mut rng);
             let (want, rule_matters) = match expected_depth1(&g, &mut q) {
